@@ -41,6 +41,47 @@ LEAVES = [
     # Zeroconf.close(): the goodbyes are skipped only when the caller is on the instance's *own* loop
     ("Shutdown", "sync_close_skips_goodbyes", "_core.py", "Zeroconf.close", ("if", "get_running_loop()", 0),
      [P("self.loop == get_running_loop()", "on_own_loop", "bool")], "bool", {}),
+    # ---- the sync path: Zeroconf.close() from a non-loop thread = unregister_all_services(); _close(); engine.close();
+    # _shutdown_threads() -- the order of the four calls and every branch they take
+    ("Shutdown", "sync_close_unregisters_if_loop_running", "_core.py", "Zeroconf.close", ("if", "self.loop.is_running()", 0),
+     [P("self.loop.is_running()", "loop_running", "bool")], "bool", {}),
+    ("Shutdown", "sync_close_unregisters_before_done", "_core.py", "Zeroconf.close", ("call_before", "self.unregister_all_services", "self._close"), [], "bool", {}),
+    ("Shutdown", "sync_close_done_before_engine_close", "_core.py", "Zeroconf.close", ("call_before", "self._close", "self.engine.close"), [], "bool", {}),
+    ("Shutdown", "sync_close_engine_close_before_threads", "_core.py", "Zeroconf.close", ("call_before", "self.engine.close", "self._shutdown_threads"), [], "bool", {}),
+    # Zeroconf._close(): cancels (and, for the thread-based ServiceBrowser, joins) every browser in Zeroconf.browsers
+    ("Shutdown", "close_removes_service_listeners", "_core.py", "Zeroconf._close", ("has_call", "self.remove_all_service_listeners"), [], "bool", {}),
+    ("Shutdown", "close_sets_done", "_core.py", "Zeroconf._close", ("has_stmt", "self.done = True"), [], "bool", {}),
+    ("Shutdown", "remove_listener_cancels", "_core.py", "Zeroconf.remove_service_listener", ("has_call", "].cancel"), [], "bool", {}),
+    ("Shutdown", "remove_listener_forgets", "_core.py", "Zeroconf.remove_service_listener", ("has_stmt", "del self.browsers[listener]"), [], "bool", {}),
+    # ServiceBrowser.cancel() (the thread-based browser): sentinel into the queue, _async_cancel on the loop, join the thread
+    ("Shutdown", "thread_cancel_signals", "_services/browser.py", "ServiceBrowser.cancel", ("call_has_arg", "self.queue.put", "None", 0), [], "bool", {}),
+    ("Shutdown", "thread_cancel_schedules_async_cancel", "_services/browser.py", "ServiceBrowser.cancel",
+     ("call_has_arg", "call_soon_threadsafe", "self._async_cancel", 0), [], "bool", {}),
+    ("Shutdown", "thread_cancel_joins", "_services/browser.py", "ServiceBrowser.cancel", ("has_call", "self.join"), [], "bool", {}),
+    # ... whoever the caller is: no `threading.current_thread() is self` test (finding D30: cancelled from its own callback
+    # thread it raises RuntimeError("cannot join current thread"))
+    ("Shutdown", "thread_cancel_guards_self_join", "_services/browser.py", "ServiceBrowser.cancel", ("has_identity_test",), [], "bool", {}),
+    # ServiceBrowser.run(): the thread stops at the sentinel only -- neither the browser's nor the instance's `done` is
+    # looked at (finding D31: an untracked browser keeps delivering what is queued after close() returned)
+    ("Shutdown", "thread_run_stops", "_services/browser.py", "ServiceBrowser.run", ("if", "event is None", 0),
+     [P("event is None", "sentinel", "bool"), P("self.zc.done", "zc_done", "bool"), P("self.done", "browser_done", "bool")], "bool", {}),
+    # AsyncEngine.close(): three-way branch -- on the instance's own loop only `_async_shutdown()`; loop not running: nothing;
+    # otherwise `_async_close()` is run on the loop **and waited for** (transports closed, cleanup timer cancelled on return)
+    ("Shutdown", "engine_close_on_own_loop", "_engine.py", "AsyncEngine.close", ("if", "get_running_loop()", 0),
+     [P("get_running_loop() == self.loop", "on_own_loop", "bool")], "bool", {}),
+    ("Shutdown", "engine_close_skipped", "_engine.py", "AsyncEngine.close", ("if", "self.loop.is_running()", 0),
+     [P("self.loop.is_running()", "loop_running", "bool")], "bool", {}),
+    ("Shutdown", "engine_close_awaits_async_close", "_engine.py", "AsyncEngine.close",
+     ("call_has_arg", "run_coro_with_timeout", "self._async_close()", 0), [], "bool", {}),
+    ("Shutdown", "engine_async_close_shuts_down", "_engine.py", "AsyncEngine._async_close", ("has_call", "self._async_shutdown"), [], "bool", {}),
+    ("Shutdown", "engine_shutdown_clears_running", "_engine.py", "AsyncEngine._async_shutdown", ("has_call", "running_event.clear"), [], "bool", {}),
+    # Zeroconf._async_close(): _close(); await engine._async_close(); _shutdown_threads()
+    ("Shutdown", "async_close_sets_done_first", "_core.py", "Zeroconf._async_close", ("call_before", "self._close", "engine._async_close"), [], "bool", {}),
+    # Zeroconf._shutdown_threads(): nothing without a loop thread; otherwise stop the loop, join the thread, forget it
+    ("Shutdown", "shutdown_threads_skipped", "_core.py", "Zeroconf._shutdown_threads", ("if", "self._loop_thread", 0),
+     [P("self._loop_thread", "has_thread", "bool")], "bool", {}),
+    ("Shutdown", "shutdown_threads_stops_loop", "_core.py", "Zeroconf._shutdown_threads", ("call_before", "shutdown_loop", "_loop_thread.join"), [], "bool", {}),
+    ("Shutdown", "shutdown_threads_forgets_thread", "_core.py", "Zeroconf._shutdown_threads", ("has_stmt", "self._loop_thread = None"), [], "bool", {}),
     ("Shutdown", "started", "_core.py", "Zeroconf.started", ("ret",),
      [P("self.done", "done", "bool"), P("self.engine.running_event", "has_event", "bool"),
       P("self.engine.running_event.is_set()", "is_set", "bool")], "bool", {}),
